@@ -1,7 +1,8 @@
 #!/bin/sh
 # tools_seed.sh <property id> <seed name> <worktree>: copies a seeded change into /verif/seeded/<name>/, verifies the
 # demonstration on the original and on the changed headers, applies the patch to /repo, runs the property's
-# quick check, and reverts /repo.
+# quick check, and reverts /repo. The evidence file of the property is saved and restored, so that a run on the
+# changed tree never leaves its (violating) record behind in /verif/evidence.
 set -u
 ID=$1; NAME=$2; WT=$3
 D=/verif/seeded/$NAME
@@ -15,7 +16,10 @@ g++ -std=c++17 -I/repo/include $D/demo.cpp -o /var/tmp/p/demo_orig 2>$D/demo_ori
 git apply $D/patch.diff || { echo "patch does not apply"; exit 3; }
 g++ -std=c++17 -I/repo/include $D/demo.cpp -o /var/tmp/p/demo_seed 2>$D/demo_seed_build.log && /var/tmp/p/demo_seed > $D/demo_seed.out 2>&1; echo "demo on seeded: exit $?"
 cd /verif
+mkdir -p /var/tmp/p; cp evidence/$ID.json /var/tmp/p/evidence_seed_keep_$ID.json 2>/dev/null
 bin/phqv $ID --tier quick > $D/check.log 2>&1; RC=$?
+cp evidence/$ID.json $D/evidence_seeded.json 2>/dev/null
+rm -f evidence/$ID.json; mv /var/tmp/p/evidence_seed_keep_$ID.json evidence/$ID.json 2>/dev/null
 echo "check $ID exit=$RC"; grep -c VIOLATION $D/check.log; grep VIOLATION $D/check.log | head -5 | cut -c1-160
 git -C /repo checkout -- . 
 git -C /repo status --short | grep -v '^??'
